@@ -3,7 +3,7 @@
    witness for the untyped set, and examples showing the hypotheses are satisfiable. *)
 From Verif.Base Require Import Tactics.
 From Verif.C06 Require Model.
-From Verif.C01 Require Import Model ModelTree Extracted ProofsNames ProofsRead ProofsPipe ProofsTree ProofsTime ProofsFile.
+From Verif.C01 Require Import Model ModelTree Extracted ProofsNames ProofsRead ProofsPipe ProofsTree ProofsTreeBS ProofsTime ProofsFile.
 Local Open Scope N_scope.
 
 (* Holds by computation only while the source keeps a typed set; with an untyped set this
@@ -76,18 +76,18 @@ Example ex_partition_point : partition_point (fun i => Nat.ltb i 3) 7 = 3%nat.
 Proof. vm_compute. reflexivity. Qed.
 
 (* ---- path lookup as the source does it now (Extracted.lookup_*: regenerated from blob/tree.rs).
-   Checks by computation while the lookup is one of the proved variants (a scan); a binary
-   search on the escaped names (seeded change C01-2) makes `lookup_proved` false. *)
-Lemma node_from_path_finds_listed_lemma : forall R fuel root path n, wf_repo_escaped R ->
+   Checks by computation while the lookup is one of the proved variants (a scan); only a
+   binary search on the escaped names (seeded change C01-2) makes `lookup_proved2` false. *)
+Lemma node_from_path_finds_listed_lemma : forall R fuel root path n, wf_repo_sorted R ->
   In (path, n) (ls fuel R root) ->
   node_from_path lookup_binary_search lookup_compares_stored R root path = Some n.
-Proof. apply node_from_path_finds_listed_gen. reflexivity. Qed.
+Proof. apply node_from_path_finds_listed_gen2. reflexivity. Qed.
 
 (* the per-component step of find_nodes_from_path is the same lookup *)
-Lemma find_nodes_finds_listed_lemma : forall R fuel root path n, wf_repo_escaped R ->
+Lemma find_nodes_finds_listed_lemma : forall R fuel root path n, wf_repo_sorted R ->
   In (path, n) (ls fuel R root) ->
   node_from_path find_nodes_binary_search find_nodes_compares_stored R root path = Some n.
-Proof. apply node_from_path_finds_listed_gen. reflexivity. Qed.
+Proof. apply node_from_path_finds_listed_gen2. reflexivity. Qed.
 
 (* ---- times as the source converts them now (Extracted.restore_time_direct from set_times) *)
 Lemma mtime_roundtrip_current_code_lemma : forall s n, (0 <= n < NS)%Z -> (JIFF_MIN <= s)%Z -> (s <= JIFF_MAX)%Z ->
